@@ -4,7 +4,7 @@
 //! through the crate's `BC64` trait, each shadowed by a `[bool; 64]`
 //! membership model that uses plain loops and the documented deck order.
 
-use crate::cardsref::{card_bit, card_name, card_word, spelling, spellings, CARD_MASK, JUNK, SEPARATORS, TAILS};
+use crate::cardsref::{card_bit, card_name, card_word, spelling, spellings, ASCII_SEPARATORS, CARD_MASK, JUNK, SEPARATORS, TAILS};
 use crate::json::J;
 use crate::rng::{fold, Rng, FNV_OFFSET};
 use crate::sim::{at, Obs, Outcome, Violation, World};
@@ -37,7 +37,8 @@ pub enum Src {
 pub enum Op {
     /// slots hold a deck index 0..51 or 52 for the blank card
     BuildHand { dst: u8, n: u8, slots: [u8; 7], via_setters: bool, order: u8 },
-    BuildText { dst: u8, tokens: Vec<Tok>, seps: Vec<u8>, lead: bool, trail: bool },
+    /// lead / trail: 0 = nothing, k = separator k-1 before the first / after the last token
+    BuildText { dst: u8, tokens: Vec<Tok>, seps: Vec<u8>, lead: u8, trail: u8 },
     BuildRaw { dst: u8, bits: u64 },
     BuildFold { dst: u8, cards: Vec<u8> },
     FoldIn { dst: u8, a: u8, b: Src },
@@ -85,6 +86,7 @@ const PROBE_LIST: &[&str] = &[
     "text_more_than_7_tokens",
     "text_tab_or_newline_separator",
     "text_leading_or_trailing_space",
+    "text_non_ascii_unicode_whitespace_or_vertical_tab",
     "text_outline_glyph",
     "text_zero_for_ten",
     "text_lowercase_spelling",
@@ -108,6 +110,8 @@ const PROBE_LIST: &[&str] = &[
     "has_empty_query",
     "has_strict_superset_false",
     "has_on_register_with_overflow",
+    "has_query_with_bits_above_51",
+    "has_false_only_because_of_a_bit_above_51",
     "count_pure_cards",
     "count_with_overflow_bits",
     "single_true",
@@ -162,6 +166,7 @@ struct P {
     text_gt7: usize,
     text_tabnl: usize,
     text_leadtrail: usize,
+    text_unicode_ws: usize,
     text_outline: usize,
     text_zero: usize,
     text_lower: usize,
@@ -185,6 +190,8 @@ struct P {
     has_empty: usize,
     has_superset: usize,
     has_over_reg: usize,
+    has_over_query: usize,
+    has_over_query_only_reason: usize,
     count_pure: usize,
     count_over: usize,
     single_t: usize,
@@ -233,6 +240,7 @@ fn probes() -> &'static P {
         text_gt7: pi("text_more_than_7_tokens"),
         text_tabnl: pi("text_tab_or_newline_separator"),
         text_leadtrail: pi("text_leading_or_trailing_space"),
+        text_unicode_ws: pi("text_non_ascii_unicode_whitespace_or_vertical_tab"),
         text_outline: pi("text_outline_glyph"),
         text_zero: pi("text_zero_for_ten"),
         text_lower: pi("text_lowercase_spelling"),
@@ -256,6 +264,8 @@ fn probes() -> &'static P {
         has_empty: pi("has_empty_query"),
         has_superset: pi("has_strict_superset_false"),
         has_over_reg: pi("has_on_register_with_overflow"),
+        has_over_query: pi("has_query_with_bits_above_51"),
+        has_over_query_only_reason: pi("has_false_only_because_of_a_bit_above_51"),
         count_pure: pi("count_pure_cards"),
         count_over: pi("count_with_overflow_bits"),
         single_t: pi("single_true"),
@@ -497,10 +507,10 @@ fn build_hand_set(n: usize, slots: &[u8; 7], via_setters: bool, order: u8) -> Bi
     }
 }
 
-pub fn text_of(tokens: &[Tok], seps: &[u8], lead: bool, trail: bool) -> String {
+pub fn text_of(tokens: &[Tok], seps: &[u8], lead: u8, trail: u8) -> String {
     let mut s = String::new();
-    if lead {
-        s.push(' ');
+    if lead > 0 {
+        s.push_str(SEPARATORS[(lead as usize - 1) % SEPARATORS.len()]);
     }
     for (i, t) in tokens.iter().enumerate() {
         if i > 0 {
@@ -515,8 +525,8 @@ pub fn text_of(tokens: &[Tok], seps: &[u8], lead: bool, trail: bool) -> String {
             Tok::Junk(j) => s.push_str(JUNK[*j as usize % JUNK.len()]),
         }
     }
-    if trail {
-        s.push(' ');
+    if trail > 0 {
+        s.push_str(SEPARATORS[(trail as usize - 1) % SEPARATORS.len()]);
     }
     s
 }
@@ -668,10 +678,14 @@ impl C15 {
                     if tokens.len() > 7 {
                         obs.hit(p.text_gt7);
                     }
-                    if seps.iter().take(tokens.len().saturating_sub(1)).any(|s| (*s as usize % SEPARATORS.len()) >= 2) {
+                    let used = || seps.iter().take(tokens.len().saturating_sub(1)).map(|s| *s as usize % SEPARATORS.len());
+                    if used().any(|s| (2..ASCII_SEPARATORS).contains(&s)) {
                         obs.hit(p.text_tabnl);
                     }
-                    if *lead || *trail {
+                    if used().any(|s| s >= ASCII_SEPARATORS) || (*lead as usize > ASCII_SEPARATORS) || (*trail as usize > ASCII_SEPARATORS) {
+                        obs.hit(p.text_unicode_ws);
+                    }
+                    if *lead > 0 || *trail > 0 {
                         obs.hit(p.text_leadtrail);
                     }
                     obs.cell(cell(kind, m.cards(), false, (junk as usize) * 2 + rep as usize));
@@ -793,7 +807,7 @@ impl C15 {
                 }
                 Op::Has { r, q } => {
                     let r = *r as usize % NREGS;
-                    let q = *q & CARD_MASK;
+                    let q = *q;
                     at(step, kind, sub);
                     let got = regs[r].has(q);
                     let qm = Set::from_bits(q);
@@ -816,6 +830,12 @@ impl C15 {
                     }
                     if model[r].has_overflow() {
                         obs.hit(p.has_over_reg);
+                    }
+                    if q & !CARD_MASK != 0 {
+                        obs.hit(p.has_over_query);
+                        if q & CARD_MASK & !rc == 0 && !want {
+                            obs.hit(p.has_over_query_only_reason);
+                        }
                     }
                     obs.cell(cell(kind, model[r].cards(), model[r].has_overflow(), want as usize * 2 + (q & rc != 0) as usize));
                     ctx.h = fold(ctx.h, r as u64);
@@ -1084,6 +1104,15 @@ impl<'a> Gen<'a> {
         self.rng.usize_below(self.nregs)
     }
 
+    /// A register to operate on: usually one that holds something.
+    fn live_reg(&mut self) -> usize {
+        let live: Vec<usize> = (0..self.nregs).filter(|r| self.shadow[*r] != 0).collect();
+        if !live.is_empty() && self.rng.chance(7, 8) {
+            return *self.rng.pick(&live);
+        }
+        self.rng.usize_below(self.nregs)
+    }
+
     fn raw_bits(&mut self) -> u64 {
         let r = &mut *self.rng;
         let mut v = match r.below(14) {
@@ -1127,6 +1156,23 @@ impl<'a> Gen<'a> {
     }
 
     fn query(&mut self, r: usize) -> u64 {
+        let q = self.card_query(r);
+        if !self.overflow_ok {
+            return q;
+        }
+        let full = self.shadow[r];
+        match self.rng.below(8) {
+            0 => q | 1u64 << (52 + self.rng.below(12)),     // one high bit on top of a card query
+            1 => (full & CARD_MASK) | 1u64 << (52 + self.rng.below(12)), // the set's cards plus a high bit
+            2 => full,                                       // exactly the register, high bits included
+            3 => !CARD_MASK,
+            4 => u64::MAX,
+            5 => full & !CARD_MASK,                          // only the register's own high bits
+            _ => q,
+        }
+    }
+
+    fn card_query(&mut self, r: usize) -> u64 {
         let s = self.shadow[r] & CARD_MASK;
         let rng = &mut *self.rng;
         let members: Vec<usize> = (0..52).filter(|i| s & card_bit(*i) != 0).collect();
@@ -1201,8 +1247,15 @@ impl<'a> Gen<'a> {
                 toks.push(Tok::Card { idx: self.rng.below(52) as u8, spell: self.rng.below(12) as u8, tail });
             }
         }
-        let plain = self.rng.chance(1, 2);
-        let seps: Vec<u8> = (0..n.saturating_sub(1)).map(|_| if plain { 0 } else { self.rng.below(SEPARATORS.len() as u64) as u8 }).collect();
+        // separator class per text: plain spaces, ASCII whitespace, any Unicode whitespace
+        let class = self.rng.below(4);
+        let seps: Vec<u8> = (0..n.saturating_sub(1))
+            .map(|_| match class {
+                0 | 1 => 0,
+                2 => self.rng.below(ASCII_SEPARATORS as u64) as u8,
+                _ => self.rng.below(SEPARATORS.len() as u64) as u8,
+            })
+            .collect();
         (toks, seps)
     }
 }
@@ -1279,7 +1332,17 @@ impl World for C15 {
                         Tok::Card { idx, .. } => a | card_bit(*idx as usize),
                         _ => a,
                     });
-                    Op::BuildText { dst: dst as u8, tokens, seps, lead: g.rng.chance(1, 6), trail: g.rng.chance(1, 6) }
+                    {
+                        let edge = |g: &mut Gen| -> u8 {
+                            match g.rng.below(12) {
+                                0 => 1,
+                                1 => 1 + g.rng.below(SEPARATORS.len() as u64) as u8,
+                                _ => 0,
+                            }
+                        };
+                        let (lead, trail) = (edge(&mut g), edge(&mut g));
+                        Op::BuildText { dst: dst as u8, tokens, seps, lead, trail }
+                    }
                 }
                 K_RAW => {
                     let bits = g.raw_bits();
@@ -1295,10 +1358,10 @@ impl World for C15 {
                     Op::BuildFold { dst: dst as u8, cards }
                 }
                 K_FOLDIN => {
-                    let a = g.reg();
+                    let a = g.live_reg();
                     let dst = if g.rng.chance(2, 3) { a } else { g.reg() };
                     let b = if g.rng.chance(1, 2) {
-                        Src::Reg(g.reg() as u8)
+                        Src::Reg(g.live_reg() as u8)
                     } else {
                         match g.rng.below(4) {
                             0 => Src::Raw(card_bit(g.rng.usize_below(52))),
@@ -1314,15 +1377,15 @@ impl World for C15 {
                     Op::FoldIn { dst: dst as u8, a: a as u8, b }
                 }
                 K_HAS => {
-                    let r = g.reg();
+                    let r = g.live_reg();
                     let q = g.query(r);
                     Op::Has { r: r as u8, q }
                 }
-                K_COUNT => Op::Count { r: g.reg() as u8 },
-                K_SINGLE => Op::Single { r: g.reg() as u8 },
-                K_VALID => Op::Valid { r: g.reg() as u8 },
+                K_COUNT => Op::Count { r: g.live_reg() as u8 },
+                K_SINGLE => Op::Single { r: g.live_reg() as u8 },
+                K_VALID => Op::Valid { r: g.live_reg() as u8 },
                 K_PEEL => {
-                    let r = g.reg();
+                    let r = g.live_reg();
                     let s = g.shadow[r] & CARD_MASK;
                     if s != 0 {
                         // shadow of peel: clear the highest card bit
@@ -1332,7 +1395,7 @@ impl World for C15 {
                     Op::Peel { r: r as u8 }
                 }
                 _ => {
-                    let r = g.reg();
+                    let r = g.live_reg();
                     g.shadow[r] &= !CARD_MASK;
                     Op::Drain { r: r as u8 }
                 }
@@ -1357,6 +1420,12 @@ impl World for C15 {
             ops.push(Op::Has { r: 0, q: bits & CARD_MASK });
             ops.push(Op::Has { r: 0, q: 0 });
             ops.push(Op::Has { r: 0, q: CARD_MASK });
+            // queries that carry bits above the card range: subset test over the whole 64-bit value
+            ops.push(Op::Has { r: 0, q: bits });
+            ops.push(Op::Has { r: 0, q: bits | 1u64 << 52 });
+            ops.push(Op::Has { r: 0, q: (bits & CARD_MASK) | 1u64 << 63 });
+            ops.push(Op::Has { r: 0, q: !CARD_MASK });
+            ops.push(Op::Has { r: 0, q: u64::MAX });
             ops.push(Op::Drain { r: 0 });
             ops.push(Op::Count { r: 0 });
             ops.push(Op::Valid { r: 0 });
@@ -1409,13 +1478,13 @@ impl World for C15 {
         for i in 0..52u8 {
             let mut ops = Vec::new();
             for sp in 0..spellings(i as usize) as u8 {
-                ops.push(Op::BuildText { dst: 0, tokens: vec![Tok::Card { idx: i, spell: sp, tail: if sp == 5 { (i % 5) + 1 } else { 0 } }], seps: vec![], lead: sp % 2 == 1, trail: sp % 3 == 1 });
+                ops.push(Op::BuildText { dst: 0, tokens: vec![Tok::Card { idx: i, spell: sp, tail: if sp == 5 { (i % 5) + 1 } else { 0 } }], seps: vec![], lead: (sp % 2 == 1) as u8, trail: if sp % 3 == 1 { 1 + sp } else { 0 } });
                 ops.push(Op::Count { r: 0 });
             }
             out.push((format!("every spelling of {}", card_name(i as usize)), ops));
         }
         let whole: Vec<Tok> = (0..52u8).rev().map(|i| Tok::Card { idx: i, spell: i % 12, tail: 0 }).collect();
-        out.push(("whole deck as text, reversed, then drain".into(), vec![Op::BuildText { dst: 0, tokens: whole.clone(), seps: (0..51).map(|i| i as u8 % 6).collect(), lead: true, trail: true }, Op::Count { r: 0 }, Op::Drain { r: 0 }]));
+        out.push(("whole deck as text, reversed, then drain".into(), vec![Op::BuildText { dst: 0, tokens: whole.clone(), seps: (0..51).map(|i| i as u8 % 12).collect(), lead: 8, trail: 4 }, Op::Count { r: 0 }, Op::Drain { r: 0 }]));
         let mut junky: Vec<Tok> = Vec::new();
         for (n, t) in whole.iter().enumerate() {
             junky.push(t.clone());
@@ -1423,11 +1492,11 @@ impl World for C15 {
                 junky.push(Tok::Junk((n / 3) as u8));
             }
         }
-        out.push(("whole deck with junk between".into(), vec![Op::BuildText { dst: 0, tokens: junky, seps: vec![], lead: false, trail: false }, Op::Count { r: 0 }, Op::Drain { r: 0 }]));
+        out.push(("whole deck with junk between".into(), vec![Op::BuildText { dst: 0, tokens: junky, seps: vec![], lead: 0, trail: 0 }, Op::Count { r: 0 }, Op::Drain { r: 0 }]));
         for j in 0..JUNK.len() as u8 {
-            out.push((format!("junk token {} alone and between cards", JUNK[j as usize]), vec![Op::BuildText { dst: 0, tokens: vec![Tok::Junk(j)], seps: vec![], lead: false, trail: false }, Op::Valid { r: 0 }, Op::BuildText { dst: 1, tokens: vec![Tok::Card { idx: 3, spell: 0, tail: 0 }, Tok::Junk(j), Tok::Card { idx: 40, spell: 3, tail: 0 }], seps: vec![0, 2], lead: false, trail: false }, Op::Count { r: 1 }, Op::Drain { r: 1 }]));
+            out.push((format!("junk token {} alone and between cards", JUNK[j as usize]), vec![Op::BuildText { dst: 0, tokens: vec![Tok::Junk(j)], seps: vec![], lead: 0, trail: 0 }, Op::Valid { r: 0 }, Op::BuildText { dst: 1, tokens: vec![Tok::Card { idx: 3, spell: 0, tail: 0 }, Tok::Junk(j), Tok::Card { idx: 40, spell: 3, tail: 0 }], seps: vec![0, 2], lead: 0, trail: 0 }, Op::Count { r: 1 }, Op::Drain { r: 1 }]));
         }
-        out.push(("empty text".into(), vec![Op::BuildText { dst: 0, tokens: vec![], seps: vec![], lead: true, trail: false }, Op::Valid { r: 0 }, Op::Peel { r: 0 }]));
+        out.push(("empty text".into(), vec![Op::BuildText { dst: 0, tokens: vec![], seps: vec![], lead: 1, trail: 0 }, Op::Valid { r: 0 }, Op::Peel { r: 0 }]));
         // every pair of cards: peel order, subset queries, two-slot hands in both orders
         for i in 0..52usize {
             let mut ops = Vec::new();
@@ -1456,9 +1525,11 @@ impl World for C15 {
             out.push((format!("deck prefix and suffix of {} cards", k), vec![Op::BuildRaw { dst: 0, bits: prefix }, Op::Count { r: 0 }, Op::Valid { r: 0 }, Op::Single { r: 0 }, Op::Drain { r: 0 }, Op::BuildRaw { dst: 1, bits: suffix }, Op::Count { r: 1 }, Op::Has { r: 1, q: prefix }, Op::Drain { r: 1 }, Op::Valid { r: 1 }]));
         }
         // text with exactly k tokens, k = 0..60 (a token-count limit shows here), plain and with odd separators
-        for k in 0..=60usize {
-            let toks: Vec<Tok> = (0..k).map(|t| Tok::Card { idx: ((t * 37 + k) % 52) as u8, spell: (t % 12) as u8, tail: 0 }).collect();
-            out.push((format!("text with {} tokens", k), vec![Op::BuildText { dst: 0, tokens: toks.clone(), seps: vec![], lead: false, trail: false }, Op::Count { r: 0 }, Op::BuildText { dst: 1, tokens: toks, seps: (0..k).map(|t| (t % 6) as u8).collect(), lead: k % 2 == 0, trail: k % 3 == 0 }, Op::Count { r: 1 }]));
+        for k in (0..=60usize).chain([64, 65, 100, 128, 129, 200]) {
+            // more than 52 tokens: the first ones repeat one card, so that new cards keep appearing up to the last token
+            let pad = k.saturating_sub(52);
+            let toks: Vec<Tok> = (0..k).map(|t| Tok::Card { idx: if t < pad { 0 } else { ((t - pad) * 37 % 52) as u8 }, spell: (t % 12) as u8, tail: 0 }).collect();
+            out.push((format!("text with {} tokens", k), vec![Op::BuildText { dst: 0, tokens: toks.clone(), seps: vec![], lead: 0, trail: 0 }, Op::Count { r: 0 }, Op::BuildText { dst: 1, tokens: toks, seps: (0..k).map(|t| ((t + k) % 12) as u8).collect(), lead: if k % 2 == 0 { 1 + (k % 12) as u8 } else { 0 }, trail: (k % 3 == 0) as u8 }, Op::Count { r: 1 }]));
         }
         // interleaved peeling of several sets (hidden shared state between peels would show here)
         out.push((
@@ -1541,8 +1612,8 @@ impl World for C15 {
                     ),
                 )
                 .with("seps", J::Arr(seps.iter().map(|s| u(*s)).collect()))
-                .with("lead", J::Bool(*lead))
-                .with("trail", J::Bool(*trail))
+                .with("lead", u(*lead))
+                .with("trail", u(*trail))
                 .with("text", J::Str(text_of(tokens, seps, *lead, *trail))),
             Op::BuildRaw { dst, bits } => J::obj().with("op", J::str("BuildRaw")).with("dst", u(*dst)).with("bits", J::hex64(*bits)),
             Op::BuildFold { dst, cards } => J::obj().with("op", J::str("BuildFold")).with("dst", u(*dst)).with("cards", J::Arr(cards.iter().map(|c| u(*c)).collect())),
@@ -1589,7 +1660,7 @@ impl World for C15 {
                     }
                 }
                 let seps: Vec<u8> = j.get("seps").and_then(|x| x.as_arr()).map(|a| a.iter().filter_map(|x| x.as_u64()).map(|x| x as u8).collect()).unwrap_or_default();
-                Ok(Op::BuildText { dst: u8f("dst")?, tokens, seps, lead: boolf("lead"), trail: boolf("trail") })
+                Ok(Op::BuildText { dst: u8f("dst")?, tokens, seps, lead: u8f("lead").unwrap_or(0), trail: u8f("trail").unwrap_or(0) })
             }
             "BuildRaw" => Ok(Op::BuildRaw { dst: u8f("dst")?, bits: u64f("bits")? }),
             "BuildFold" => {
@@ -1656,9 +1727,16 @@ impl World for C15 {
                 }
                 if seps.iter().any(|s| *s != 0) {
                     out.push(Op::BuildText { dst: *dst, tokens: tokens.clone(), seps: vec![0; seps.len()], lead: *lead, trail: *trail });
+                    for i in 0..seps.len() {
+                        if seps[i] != 0 {
+                            let mut s2 = seps.clone();
+                            s2[i] = 0;
+                            out.push(Op::BuildText { dst: *dst, tokens: tokens.clone(), seps: s2, lead: *lead, trail: *trail });
+                        }
+                    }
                 }
-                if *lead || *trail {
-                    out.push(Op::BuildText { dst: *dst, tokens: tokens.clone(), seps: seps.clone(), lead: false, trail: false });
+                if *lead > 0 || *trail > 0 {
+                    out.push(Op::BuildText { dst: *dst, tokens: tokens.clone(), seps: seps.clone(), lead: 0, trail: 0 });
                 }
                 for (i, t) in tokens.iter().enumerate() {
                     if let Tok::Card { idx, spell, tail } = t {
@@ -1726,7 +1804,7 @@ impl World for C15 {
                 J::Arr(
                     [
                         "S1 after every step every register equals its model on all 64 bit positions (fold_in is union of everything both operands hold)",
-                        "S2 has = subset test, number_of_cards = member count, is_single_card = exactly one, is_valid = non-empty and nothing above bit 51",
+                        "S2 has = subset test on all 64 positions, number_of_cards = member count, is_single_card = exactly one, is_valid = non-empty and nothing above bit 51",
                         "S3 peel returns the card that comes first in deck order and removes exactly it (bits above 51 untouched); with no card bits it returns blank and changes nothing",
                         "S4 drain lists exactly the members, in deck order, then blank twice without change; cut off at 65 peels",
                         "frame: registers not named by the operation are unchanged",
